@@ -161,13 +161,14 @@ type FnCtx struct {
 	sentinelsDeclared bool
 	written     map[string]bool // heaps written during execution (top frame incl. inlined)
 	ghostNames  map[string]Term // names bound to results of calls made by the function under verification
+	ghostKeys   map[string]string // ghost name -> call key (for called(name))
 	inputSyms   []string
 }
 
 func newFnCtx(e *Engine, fn *ssa.Function, spec *FuncSpec) *FnCtx {
 	return &FnCtx{eng: e, fn: fn, name: funcDisplayName(fn), spec: spec, decls: newDecls(),
 		kindCount: map[string]int{}, havocCallees: map[string]bool{}, assumedSpecs: map[string]bool{},
-		usedModels: map[string]bool{}, assumptions: map[string]bool{}, written: map[string]bool{}, ghostNames: map[string]Term{}}
+		usedModels: map[string]bool{}, assumptions: map[string]bool{}, written: map[string]bool{}, ghostNames: map[string]Term{}, ghostKeys: map[string]string{}}
 }
 
 func (fc *FnCtx) fresh(prefix, sort string) Term {
@@ -580,6 +581,12 @@ func (fc *FnCtx) store(st *State, p Val, v Val, pointee types.Type, instr ssa.In
 			return
 		case PField:
 			vt, ok := v.(Term)
+			if av, isAny := v.(*AnyVal); isAny && !ok && pv.HSort == SInt {
+				if ht, isH := av.V.(Term); isH && ht.Sort == SHdr {
+					fc.declareAnyHdr()
+					vt, ok = app(SInt, "anyHdr", ht), true
+				}
+			}
 			if !ok {
 				fc.abstract(instr, fmt.Sprintf("store of non-term %T into field heap %s", v, pv.Heap))
 				vt = fc.fresh("hv", pv.HSort)
@@ -847,7 +854,7 @@ func (fc *FnCtx) lazyCellInit(st *State, k cellKey) (Val, bool) {
 		if strings.HasPrefix(v, "sent:") || strings.HasPrefix(v, "closed:") {
 			return intLit(0), true
 		}
-		if strings.HasPrefix(v, "ctxdone:") {
+		if strings.HasPrefix(v, "ctxdone:") || strings.HasPrefix(v, "called:") {
 			return tFalse, true
 		}
 		if g, ok := fc.eng.ghosts[v]; ok {
